@@ -1,5 +1,4 @@
 package main
 
-func genScanner(repo string) string     { panic(unsupported{msg: "scanner generator not built yet"}) }
 func genCollections(repo string) string { panic(unsupported{msg: "collections generator not built yet"}) }
 func genInventory(repo string) string   { panic(unsupported{msg: "inventory generator not built yet"}) }
